@@ -120,6 +120,21 @@ claim("C15", "proof",
       "Coq proof (pointwise frame reasoning over tapes and histories) + fresh-vs-long-lived differential oracle",
       "DESIGN.md section 6, C15")
 
+claim("C06", "proof",
+      "Coq theorems (Coquelicot is_derive over R): for EVERY opcode the derivative kernel of eval_deriv_array.cpp is the chain "
+      "rule wherever the opcode is differentiable (explicit smooth_at side conditions; pow / nth_root / mod with a locally "
+      "constant second argument, shown necessary for mod); lifted by induction over well-formed tapes to every slot; "
+      "DerivArrayEvaluator::derivs returns (d/dx, d/dy, d/dz); the Jacobian evaluator returns the partials in free variables; "
+      "CONST_VAR yields zero for variables and passes spatial gradients; a min/max kernel returns exactly one branch's "
+      "gradient, tie or not.  Tie: the model kernels (extracted, binary32 emulation) are run on the implementation's own "
+      "optimised deck at generated points and compared with DerivArrayEvaluator / JacobianEvaluator / C API gradients; "
+      "oracle: central differences of the implementation's own value evaluator at smooth points, FeatureEvaluator output at "
+      "constructed min/max ties (every feature is one branch's gradient), isInside on non-zero values.",
+      "Trusted: Coq kernel; Coquelicot + classical reals axioms (sig_not_dec, sig_forall_dec, functional_extensionality_dep, classic); "
+      "extraction; harness; binary32 rounding modelled by tolerance.",
+      "Coq proof (Coquelicot chain rule per opcode, induction over tapes) + extraction-based kernel correspondence",
+      "DESIGN.md section 6, C06")
+
 claim("C19", "proof",
       "Coq theorems: the descending-dimension search of solveBounded returns a position inside the box whenever the corner "
       "candidates have comparable errors (bounds merely ordered), returns a pinned candidate when a face candidate is "
